@@ -497,8 +497,22 @@ func resultSetResponse(rng *rand.Rand, rowFields [][]string) []byte {
 	if rng.Intn(4) == 0 { // nor must an environment change (it is consumed by the channel, not recorded)
 		body = append(body, rEnv([3]string{"\x01", "db" + strconv.Itoa(rng.Intn(9)), "master"}).bytes...)
 	}
+	// the data packages of one set carry DIFFERENT values where the generators offer several rows for the
+	// same format (a later row must not change an earlier one: values are rendered after all have arrived)
+	var same [][]byte
+	for _, other := range rowFields {
+		if other[0] == rf[0] && len(same) < 6 && string(codecRegistry[other[0]].CtxFor(other[1:])) == string(ctx) {
+			if b, ok := codecRegistry[other[0]].SpecEnc(other[1:]); ok && len(b) < 1500 {
+				same = append(same, b)
+			}
+		}
+	}
 	for r := 0; r < 1+rng.Intn(3); r++ {
-		body = append(body, row...)
+		next := row
+		if len(same) > 1 {
+			next = same[rng.Intn(len(same))]
+		}
+		body = append(body, next...)
 		if rng.Intn(5) == 0 {
 			body = append(body, rEED(3000+rng.Intn(100), false, "row message\n").bytes...)
 		}
